@@ -230,7 +230,11 @@ type ScenarioOpts struct {
 func genScenarios(r *rand.Rand, o ScenarioOpts) []*Scenario {
 	var sch *schema.BodySchema
 	for i := 0; i < 50; i++ {
-		sch = genBodySchema(r, 2, &o.Gen, true)
+		depth := 2
+		if o.Gen.MaxDepth > 2 {
+			depth = o.Gen.MaxDepth
+		}
+		sch = genBodySchema(r, depth, &o.Gen, true)
 		if sch.Validate() == nil {
 			break
 		}
